@@ -42,6 +42,46 @@ class ConcatenatedData(Concatenated, Data):
         super().__init__(entity_type, **kwargs)
 
     @property
+    def name(self) -> str:
+        """
+        :obj:`str` Name of the data. The values of concatenated data are filed under
+        that name: a stored data takes them along when it is renamed.
+        """
+        return self._name
+
+    @name.setter
+    def name(self, new_name: str):
+        old_name = getattr(self, "_name", None)
+        new_name = self.fix_up_name(new_name)
+        parental_attr = None
+        if (
+            getattr(self, "_on_file", False)
+            and getattr(self, "_parent", None) is not None
+            and isinstance(old_name, str)
+            and old_name != new_name
+        ):
+            parental_attr = self.concatenator.get_concatenated_attributes(
+                self.parent.uid
+            )
+
+        if parental_attr is None or parental_attr.get(
+            f"Property:{old_name}"
+        ) != as_str_if_uuid(self.uid):
+            self._name = new_name
+            self.workspace.update_attribute(self, "attributes")
+            return
+
+        values = self.values
+        self.concatenator.update_array_attribute(self, old_name, remove=True)
+        del parental_attr[f"Property:{old_name}"]
+        parental_attr[f"Property:{new_name}"] = as_str_if_uuid(self.uid)
+        self._name = new_name
+        self.workspace.update_attribute(self, "attributes")
+
+        if values is not None:
+            self.concatenator.update_array_attribute(self, new_name)
+
+    @property
     def property_group(self) -> ConcatenatedPropertyGroup | None:
         """Get the property group containing the data interval."""
         if self.parent.property_groups is None:
